@@ -4,9 +4,13 @@ From Biscuit Require Export Model.Authorizer Model.DatalogCases.
 
 Inductive ioutcome := IOutcome (o : outcome) | IOther | IPanic.
 
-(* max_facts, max_iterations *)
+(* what Authorizer::query / query_all returned for a rule: the facts, an error, or not asked *)
+Inductive qobs := QFacts (l : list Datalog.fact) | QFail | QSkip.
+
+(* max_facts, max_iterations; queries asked after authorize(): rule, query result, query_all result *)
 Definition acase : Type :=
-  (token * authorizer * (N * N) * list (bytes * bytes * bool) * (ioutcome * option (list ofact))).
+  (token * authorizer * (N * N) * list (bytes * bytes * bool) * (ioutcome * option (list ofact))
+   * list (rule * qobs * qobs)).
 
 Definition failed_eqb (a b : failed) : bool :=
   match a, b with
@@ -44,12 +48,12 @@ Definition outcome_eqb (a b : outcome) : bool :=
 Definition acase_fuel (max_iter : N) : nat := N.to_nat (N.min max_iter 3000).
 
 Definition acase_model (c : acase) : outcome * list ofact :=
-  let '(t, a, (mf, mi), rx, _) := c in
+  let '(t, a, (mf, mi), rx, _, _) := c in
   authorize_world (case_oracles rx) true (acase_fuel mi) mf mi t a.
 
 (* the same under the pre-fix reading of `reject if` (first unmatched alternative passes) *)
 Definition acase_model_old_reject (c : acase) : outcome * list ofact :=
-  let '(t, a, (mf, mi), rx, _) := c in
+  let '(t, a, (mf, mi), rx, _, _) := c in
   authorize_world (case_oracles rx) false (acase_fuel mi) mf mi t a.
 
 Definition is_exec (o : outcome) : bool := match o with OExec _ => true | _ => false end.
@@ -88,7 +92,7 @@ Fixpoint blocks_err (O : oracles) (facts : list ofact) (km : keymap) (i : N) (bs
 (* the run itself (rule application) succeeded in the model: an execution error of the model
    then comes from a check or policy, i.e. the mixed class above *)
 Definition acase_run_ok (c : acase) : bool :=
-  let '(t, a, (mf, mi), rx, _) := c in
+  let '(t, a, (mf, mi), rx, _, _) := c in
   let W := load t a in
   match run_loop (case_oracles rx) (acase_fuel mi) mi mf 0 (w_rules W) (w_facts W) with
   | (ROk _, _) => true
@@ -96,7 +100,7 @@ Definition acase_run_ok (c : acase) : bool :=
   end.
 
 Definition acase_mixed (c : acase) : bool :=
-  let '(t, a, _, rx, _) := c in
+  let '(t, a, _, rx, _, _) := c in
   let O := case_oracles rx in
   let facts := snd (acase_model c) in
   let km := token_keymap t in
@@ -105,16 +109,49 @@ Definition acase_mixed (c : acase) : bool :=
   || existsb (fun p => queries_err O facts atr auth_id km (pqueries p)) (apolicies a)
   || blocks_err O facts km 0 t.
 
+(* ---- queries: Authorizer::query (authority + authorizer unless scoped) and query_all ---- *)
+Definition fset_subset (a b : list Datalog.fact) : bool := forallb (fun f => existsb (fact_eqb f) b) a.
+Definition fset_eq (a b : list Datalog.fact) : bool := fset_subset a b && fset_subset b a.
+
+Definition qobs_agrees (m : res (list Datalog.fact)) (o : qobs) : bool :=
+  match o, m with
+  | QSkip, _ => true
+  | QFacts l, Ok l' => fset_eq l l'
+  | QFail, Err _ => true
+  | _, _ => false
+  end.
+
+(* a query whose bindings can error is order dependent (C11): not compared *)
+Definition acase_queries_ok (c : acase) : bool :=
+  let '(t, a, (mf, mi), rx, _, qs) := c in
+  let O := case_oracles rx in
+  match qs with
+  | [] => true
+  | _ =>
+    let W := load t a in
+    match run_loop O (acase_fuel mi) mi mf 0 (w_rules W) (w_facts W) with
+    | (ROk (fs, _), _) =>
+        forallb (fun x =>
+                   let '(q, o1, o2) := x in
+                   let km := token_keymap t in
+                   (query_errs O fs (query_trust km q) q || qobs_agrees (query O fs t q) o1) &&
+                   (query_errs O fs (query_all_trust km (length t) q) q || qobs_agrees (query_all O fs t q) o2)) qs
+    | _ => forallb (fun x => let '(_, o1, o2) := x in
+                             match o1, o2 with QFacts _, _ | _, QFacts _ => false | _, _ => true end) qs
+    end
+  end.
+
 Fixpoint acase_scan (idx : N) (cs : list acase) (bad : list (N * outcome)) (skipped : N)
   : list (N * outcome) * N :=
   match cs with
   | [] => (rev bad, skipped)
   | c :: cs' =>
       let m := acase_model c in
-      if aagrees m (snd c)
+      if aagrees m (snd (fst c)) && acase_queries_ok c
       then acase_scan (N.succ idx) cs' bad skipped
       else if acase_run_ok c && acase_mixed c &&
-              match fst (snd c) with
+              acase_queries_ok c &&
+              match fst (snd (fst c)) with
               | IOutcome (OLimit _) | IOther | IPanic => false
               | IOutcome o => xorb (is_exec o) (is_exec (fst m))
               end
